@@ -1221,7 +1221,12 @@ def needle_status(repo: Repo, f: FuncInfo, e: ast.expr) -> str:
     ever concatenated (flow tag DOT absent) is a plain name."""
     st = dot_status(repo, f, e)
     if st == "unknown":
-        tags = set(name_flow(repo).tags(e))
+        fl = name_flow(repo)
+        tags = set(fl.tags(e))
+        if not tags:
+            # core/flow.py does not propagate the values of `yield`: take the tags of the expressions the value originates from
+            for g, x, _kind in origins(repo).value(f, e):
+                tags |= set(fl.tags(x))
         if "DOT" not in tags and ("NAME" in tags or "COMP" in tags):
             return "bare"
     return st
@@ -1341,7 +1346,7 @@ def _unbool(e: ast.expr | None) -> ast.expr | None:
     return e.args[0] if isinstance(e, ast.Call) and isinstance(e.func, ast.Name) and e.func.id == "bool" and len(e.args) == 1 else e
 
 
-def _relation_atoms(repo: Repo, f: FuncInfo, formula, hay: str, others: set[str]):
+def _relation_atoms(repo: Repo, f: FuncInfo, formula, hay: str, others: set[str], _depth: int = 0):
     """Atoms of `formula` relating `hay` to one of `others`: (safe, raw) lists of formulas.
 
     safe: hay == o, hay.startswith(<o + '.'>);  raw: hay.startswith(o)
@@ -1366,6 +1371,16 @@ def _relation_atoms(repo: Repo, f: FuncInfo, formula, hay: str, others: set[str]
                 (safe if st == "dot" else raw).append(mk(a))
             elif _is_dotted_form(_expand(repo, f, nd), others):
                 safe.append(mk(a))
+        elif isinstance(inner, ast.Call) and not (isinstance(inner.func, ast.Attribute) and inner.func.attr in STR_REL_METHODS):
+            try:
+                if _relation_call(repo, f, inner, hay, others, _depth) or _relation_call(repo, f, _expand_names(repo, f, inner), hay, others, _depth):
+                    safe.append(mk(a))
+                elif _component_prefix_expr(repo, f, _expand_names(repo, f, inner), hay, next(iter(others))):
+                    safe.append(mk(a))
+            except RecursionError:
+                raise
+            except Exception:  # noqa: BLE001
+                pass
     return safe, raw
 
 
@@ -1416,6 +1431,12 @@ def _selected_from(repo: Repo, f: FuncInfo, name: str) -> tuple[str, list[ast.ex
                         return nested[0].param_names[0], [body[0].value], maybe_none
         if isinstance(pred, ast.Lambda) and len(pred.args.args) == 1:
             return pred.args.args[0].arg, [pred.body], maybe_none
+        if isinstance(pred, ast.Call) and _call_name(pred) == "partial" and pred.args and not pred.keywords:
+            v = "_selected_element"
+            return v, [ast.Call(func=_clone(pred.args[0]), args=[*[_clone(a) for a in pred.args[1:]], ast.Name(id=v, ctx=ast.Load())], keywords=[])], maybe_none
+        if isinstance(pred, (ast.Name, ast.Attribute)):
+            v = "_selected_element"
+            return v, [ast.Call(func=_clone(pred), args=[ast.Name(id=v, ctx=ast.Load())], keywords=[])], maybe_none
     return None
 
 
@@ -1436,79 +1457,6 @@ def _site_facts(repo: Repo, f: FuncInfo, node: ast.AST, other: str, assume_not_n
             held = f_and([to_formula(cond, copy_prop(f)) for cond in conds_])
             facts.append(f_or([mk(f"{other} is None"), held]) if maybe_none and not assume_not_none else held)
     return f_and(facts), others
-
-
-def _ancestor_or_self(repo: Repo, f: FuncInfo, e: ast.expr, hay: str, depth: int = 0) -> bool:
-    """`e` is `hay` itself or an element of get_parent_modules(hay) (possibly None on other paths)."""
-    if depth > 4:
-        return False
-    if norm(e) == hay:
-        return True
-    if isinstance(e, ast.Constant) and e.value is None:
-        return True
-
-    def lineage(g: FuncInfo, x: ast.expr, h: str, d: int) -> bool:
-        if d > 5:
-            return False
-        if isinstance(x, ast.List):
-            return all(norm(el) == h for el in x.elts)
-        if isinstance(x, ast.BinOp) and isinstance(x.op, ast.Add):
-            return lineage(g, x.left, h, d + 1) and lineage(g, x.right, h, d + 1)
-        if isinstance(x, ast.Subscript) and isinstance(x.slice, ast.Slice):
-            return lineage(g, x.value, h, d + 1)
-        if isinstance(x, ast.Starred):
-            return lineage(g, x.value, h, d + 1)
-        if isinstance(x, ast.Call):
-            fn = x.func
-            nm = fn.id if isinstance(fn, ast.Name) else (fn.attr if isinstance(fn, ast.Attribute) else "")
-            if nm == "get_parent_modules" and x.args and norm(x.args[0]) == h:
-                return True
-            if nm in ("reversed", "list", "sorted", "tuple") and x.args:
-                return lineage(g, x.args[0], h, d + 1)
-            return False
-        if isinstance(x, ast.Name) and not isinstance(g.node, ast.Lambda):
-            stores = [n for n in own_nodes(g.node) if isinstance(n, ast.Name) and n.id == x.id and isinstance(n.ctx, ast.Store)]
-            assigns = [n for n in own_nodes(g.node) if isinstance(n, ast.Assign) and len(n.targets) == 1 and dotted(n.targets[0]) == x.id]
-            if len(stores) == 1 and len(assigns) == 1:
-                return lineage(g, assigns[0].value, h, d + 1)
-        return False
-
-    if isinstance(e, ast.Name) and not isinstance(f.node, ast.Lambda):
-        stores = [n for n in own_nodes(f.node) if isinstance(n, ast.Name) and n.id == e.id and isinstance(n.ctx, ast.Store)]
-        if len(stores) != 1:
-            return False
-        for n in own_nodes(f.node):
-            if isinstance(n, ast.Assign) and len(n.targets) == 1 and dotted(n.targets[0]) == e.id:
-                v = n.value
-                if isinstance(v, ast.Call) and dotted(v.func) == "next" and v.args and isinstance(v.args[0], ast.GeneratorExp) and len(v.args[0].generators) == 1 and isinstance(v.args[0].elt, ast.Name) and dotted(v.args[0].generators[0].target) == v.args[0].elt.id:
-                    return lineage(f, v.args[0].generators[0].iter, hay, 0)
-                if isinstance(v, ast.Call):
-                    T = types_of(repo)
-                    try:
-                        cs, how = T.callees(f, v, byname_fallback=False)
-                    except Exception:  # noqa: BLE001
-                        cs, how = [], ""
-                    if len(cs) == 1 and how == "repo":
-                        g = cs[0]
-                        # which parameter receives hay?
-                        pos = g.param_names
-                        if g.cls is not None and g.outer is None and not g.is_staticmethod:
-                            pos = pos[1:]
-                        hp = None
-                        for i, a in enumerate(v.args):
-                            if norm(a) == hay and i < len(pos):
-                                hp = pos[i]
-                        for k in v.keywords:
-                            if norm(k.value) == hay:
-                                hp = k.arg
-                        if hp is None:
-                            return False
-                        rets = [r for r in own_nodes(g.node) if isinstance(r, ast.Return) and r.value is not None]
-                        return bool(rets) and all(_ancestor_or_self(repo, g, r.value, hp, depth + 1) for r in rets)
-                return _ancestor_or_self(repo, f, v, hay, depth + 1)
-            if isinstance(n, (ast.For, ast.AsyncFor)) and isinstance(n.target, ast.Name) and n.target.id == e.id:
-                return lineage(f, n.iter, hay, 0)
-    return False
 
 
 def _boundary_predicate(repo: Repo, f: FuncInfo, hay: str = "", needle: str = "") -> bool:
@@ -1819,14 +1767,27 @@ def _index_cut(repo: Repo, f: FuncInfo, node: ast.Subscript, bound: ast.expr, is
     hay = norm(node.value)
     texts = {norm(bound)}
     core, off = _strip_offset(bound)
+    nonneg = False  # max(i, 0): "not found" (-1) becomes the empty prefix, which cuts nothing off a component
+    if isinstance(core, ast.Call) and isinstance(core.func, ast.Name) and core.func.id == "max" and len(core.args) == 2 and not core.keywords and any(isinstance(a, ast.Constant) and a.value == 0 for a in core.args) and off == 0:
+        core = next(a for a in core.args if not (isinstance(a, ast.Constant) and a.value == 0))
+        core, off = _strip_offset(core)
+        nonneg = True
     if isinstance(core, ast.Name):
         d = local_defs(repo, f).get(core.id)
         if d is None and not isinstance(f.node, ast.Lambda) and core.id not in f.param_names:
             # assigned several times, every time the position of a separator in the same string: `i = s.find("."); while i != -1: ..; i = s.find(".", i + 1)`
             binds = origins(repo)._bindings(f, core.id)
             vals = [src for kind, src, p_ in binds if kind == "value" and not p_]
-            if binds and len(vals) == len(binds) and all(isinstance(v, ast.Call) and isinstance(v.func, ast.Attribute) and v.func.attr in ("find", "rfind") and norm(v.func.value) == hay and v.args and _const_str(v.args[0]) == "." for v in vals):
-                if off == 0 and _found_guard(repo, f, node, hay, {core.id}):
+
+            def sentinel(v: ast.expr) -> bool:
+                try:
+                    return ast.literal_eval(v) in (-1, 0) and not isinstance(ast.literal_eval(v), bool)
+                except Exception:  # noqa: BLE001
+                    return False
+
+            finds = [v for v in vals if isinstance(v, ast.Call) and isinstance(v.func, ast.Attribute) and v.func.attr in ("find", "rfind") and norm(v.func.value) == hay and v.args and _const_str(v.args[0]) == "."]
+            if binds and len(vals) == len(binds) and finds and all(v in finds or sentinel(v) for v in vals):
+                if off == 0 and (nonneg or _found_guard(repo, f, node, hay, {core.id})):
                     return "safe", "cut at a separator found by find/rfind, reached only when one was found"
                 if off == 1:
                     return "safe", "cut one past the separator found by find/rfind"
@@ -1850,7 +1811,7 @@ def _index_cut(repo: Repo, f: FuncInfo, node: ast.Subscript, bound: ast.expr, is
         if off == 1:
             return "safe", "cut one past the separator found by find/rfind (position 0 when there is none: the whole name)"
         if off == 0:
-            if _found_guard(repo, f, node, hay, texts):
+            if nonneg or _found_guard(repo, f, node, hay, texts):
                 return "safe", "cut at the separator found by find/rfind, reached only when one was found"
             return "unsafe", f"`{norm(node, 60)}`: {core.func.attr}('.') is -1 for a name without separator, the slice then cuts off its last character - the name is walked through its raw string prefixes"
         return "unknown", f"`{norm(node, 60)}`: offset {off} from the separator"
@@ -1902,6 +1863,8 @@ def _positions_of(repo: Repo, f: FuncInfo, node: ast.AST, var: str, tgt: ast.exp
         except AnalysisError:
             return None
         return "unsafe", f"`{norm(node, 60)}`: every character position of the name is a cut point (no test that the position holds '.')"
+    if isinstance(tgt, ast.Name) and tgt.id == var and off in (0, 1) and not isinstance(it, ast.Name) and _separator_positions_of(repo, f, it, _canon(repo, f, _parse_atom(hay) or ast.Name(id=hay, ctx=ast.Load()))):
+        return "safe", "cut at one of the separator positions computed by a helper"
     # positions collected first: `dots = [i for i, c in enumerate(name) if c == "."]` ... `for p in dots: name[:p]`
     if depth == 0 and isinstance(tgt, ast.Name) and isinstance(it, ast.Name):
         d = local_defs(repo, f).get(it.id)
@@ -2302,6 +2265,360 @@ def _remainder_uses(repo: Repo, f: FuncInfo, n: ast.AST, hay_e: ast.expr, needle
     return only_tests and tested, guarded and tested
 
 
+# --------------------------------------------------------------------------- relation predicates
+#
+# A function whose truthy result implies "H is N or below N" (whole components): `h == n or h.startswith(n + ".")`, a raw prefix
+# test with boundary evidence, a component-wise comparison, or a combination / delegation of these. Used where the relation is
+# established by calling such a function (`if name.is_or_is_below(other): ... name.relative_to(other)`).
+
+
+def _component_prefix_expr(repo: Repo, g: FuncInfo, e: ast.expr, H: str, N: str) -> bool:
+    """`e` (names expanded) is true only if the components of N are a leading run of the components of H."""
+    txt = lambda x: " ".join(ast.unparse(x).split())  # noqa: E731
+    hs, ns = f"{H}.split('.')", f"{N}.split('.')"
+    if isinstance(e, ast.Compare) and len(e.ops) == 1 and isinstance(e.ops[0], ast.Eq):
+        sides = {txt(e.left), txt(e.comparators[0])}
+        if sides == {f"{hs}[:len({ns})]", ns}:
+            return True
+        if sides == {f"tuple({hs})[:len({ns})]", f"tuple({ns})"} or sides == {f"tuple({hs}[:len({ns})])", f"tuple({ns})"}:
+            return True
+    if isinstance(e, ast.Call) and _call_name(e) == "all" and len(e.args) == 1 and isinstance(e.args[0], (ast.GeneratorExp, ast.ListComp)) and len(e.args[0].generators) == 1:
+        gen = e.args[0].generators[0]
+        it = gen.iter
+        if isinstance(it, ast.Call) and _call_name(it) == "zip_longest" and len(it.args) == 2 and [txt(a) for a in it.args] == [hs, ns] and isinstance(gen.target, ast.Tuple) and len(gen.target.elts) == 2 and all(isinstance(x, ast.Name) for x in gen.target.elts):
+            x, y = (t.id for t in gen.target.elts)
+            elt = e.args[0].elt
+            # `y is None or x == y`: every component of N is matched, H may have more
+            if isinstance(elt, ast.BoolOp) and isinstance(elt.op, ast.Or) and len(elt.values) == 2:
+                a, b = (txt(v) for v in elt.values)
+                if {a, b} in ({f"{y} is None", f"{x} == {y}"}, {f"{y} is None", f"{y} == {x}"}):
+                    return True
+    if isinstance(e, ast.BoolOp) and isinstance(e.op, ast.And):
+        texts = [txt(v) for v in e.values]
+        lens_ok = any(t in (f"len({hs}) >= len({ns})", f"len({ns}) <= len({hs})") for t in texts)
+        zips = any(isinstance(v, ast.Call) and _call_name(v) == "all" and v.args and isinstance(v.args[0], (ast.GeneratorExp, ast.ListComp)) and isinstance(v.args[0].generators[0].iter, ast.Call) and _call_name(v.args[0].generators[0].iter) == "zip" and {txt(a) for a in v.args[0].generators[0].iter.args} == {hs, ns} and isinstance(v.args[0].elt, ast.Compare) and isinstance(v.args[0].elt.ops[0], ast.Eq) for v in e.values)
+        if lens_ok and zips:
+            return True
+    return False
+
+
+def _resolve_callable_text(repo: Repo, g: FuncInfo, fn: ast.expr) -> FuncInfo | None:
+    """The repo function a (re-parsed, parent-less) callee expression denotes: `helper`, `self.helper`, `cls.helper`, `Class.helper`,
+    `obj.method` for a local `obj` of known class."""
+    T = types_of(repo)
+    if isinstance(fn, ast.Name):
+        h = g
+        while h is not None:
+            for cand in g.module.all_funcs:
+                if cand.outer is h and cand.name == fn.id and not isinstance(cand.node, ast.Lambda):
+                    return cand
+            h = h.outer
+        if fn.id in g.module.functions:
+            return g.module.functions[fn.id]
+        fq = g.module.imports.get(fn.id)
+        if fq:
+            m2, _, attr = fq.rpartition(".")
+            om = repo.modules.get(m2)
+            if om is not None and attr in om.functions:
+                return om.functions[attr]
+        return None
+    if isinstance(fn, ast.Attribute):
+        ci = None
+        if isinstance(fn.value, ast.Name) and fn.value.id in ("self", "cls") and g.cls is not None:
+            ci = g.cls
+        else:
+            try:
+                t = T.expr(g, fn.value)
+            except Exception:  # noqa: BLE001
+                return None
+            cs = [repo.classes.get(m[1]) for m in members(t) if m[0] in ("cls", "type")]
+            if len(cs) == 1 and cs[0] is not None and len(members(t)) == 1:
+                ci = cs[0]
+        if ci is not None:
+            m = repo.lookup_method(ci, fn.attr)
+            if m is not None and not m.is_property:
+                return m
+    return None
+
+
+def _relation_call(repo: Repo, g: FuncInfo, call: ast.expr, H: str, others: set[str], depth: int) -> bool:
+    """`call` (re-parsed from an atom, names expanded) invokes a relation predicate with (H, one of others)."""
+    if not isinstance(call, ast.Call) or depth > 3:
+        return False
+    fn = call.func
+    pre: list[ast.expr] = []
+    if isinstance(fn, ast.Call) and _call_name(fn) == "partial" and fn.args:  # partial(pred, h)(n)
+        pre = list(fn.args[1:])
+        fn = fn.args[0]
+    callee = _resolve_callable_text(repo, g, fn)
+    if callee is None or isinstance(callee.node, ast.Lambda):
+        return False
+    args = [*pre, *call.args]
+    if any(isinstance(a, ast.Starred) for a in args):
+        return False
+    pos_ = _positional(callee)
+    bound: dict[str, ast.expr] = {}
+    for i, a in enumerate(args):
+        if i < len(pos_):
+            bound[pos_[i]] = a
+    for k in call.keywords:
+        if k.arg:
+            bound[k.arg] = k.value
+    txt = lambda x: " ".join(ast.unparse(x).split())  # noqa: E731
+    hp = next((p for p, a in bound.items() if txt(a) == H), None)
+    op_ = next((p for p, a in bound.items() if txt(a) in others and p != hp), None)
+    h_text = hp
+    if hp is None and isinstance(fn, ast.Attribute) and callee.cls is not None:
+        # the name is a field / property of the receiver:  recv.is_below(other)  with  H == recv.<field>
+        recv = txt(fn.value)
+        if H.startswith(recv + "."):
+            h_text = "self." + H[len(recv) + 1 :]
+        elif recv == H:
+            return False
+    if h_text is None or op_ is None:
+        return False
+    return _relation_predicate(repo, callee, h_text, op_, depth + 1)
+
+
+def _relation_predicate(repo: Repo, g: FuncInfo, H: str, N: str, depth: int = 0) -> bool:
+    """The truthy result of `g` implies that `H` (a parameter or `self.<field>`, text in g's terms) is `N` (a parameter) or below it."""
+    from core.guards import atom as mk, atoms_of, f_and, f_not, f_or, implies, to_formula
+
+    from .common import copy_prop, guard_formula
+
+    key = ("relpred", id(repo), g.fq, H, N)
+    if key in _cache:
+        return _cache[key]
+    _cache[key] = False  # recursion guard
+    ok = False
+    try:
+        if depth <= 3 and not isinstance(g.node, ast.Lambda) and not any(isinstance(x, (ast.Yield, ast.YieldFrom)) for x in own_nodes(g.node)):
+            rets = [r for r in own_nodes(g.node) if isinstance(r, ast.Return) and r.value is not None]
+            h_e, n_e = _parse_atom(H), _parse_atom(N)
+            ok = bool(rets) and h_e is not None and n_e is not None
+            subst = copy_prop(g)
+            for r in rets if ok else []:
+                F = f_and([guard_formula(g, r), to_formula(r.value, subst)])
+                if F == ("const", False):
+                    continue
+                safe_a, raw_a = _relation_atoms(repo, g, F, H, {N})
+                good = list(safe_a)
+                raws = list(raw_a)
+                for a in atoms_of(F):
+                    e = _parse_atom(a)
+                    if e is None:
+                        continue
+                    x = _expand_names(repo, g, e)
+                    inner = _unbool(x)
+                    txt = " ".join(ast.unparse(inner).split())
+                    if isinstance(inner, ast.Compare) and len(inner.ops) == 1 and isinstance(inner.ops[0], ast.Eq):
+                        sides = {" ".join(ast.unparse(inner.left).split()), " ".join(ast.unparse(inner.comparators[0]).split())}
+                        if sides == {f"{H}[:len({N})]", N}:
+                            raws.append(mk(a))
+                    if _component_prefix_expr(repo, g, inner, H, N):
+                        good.append(mk(a))
+                    elif isinstance(inner, ast.Call) and _relation_call(repo, g, inner, H, {N}, depth):
+                        good.append(mk(a))
+                ev = _evidence_goal(repo, g, F, h_e, n_e)
+                goal = f_or([*good, *([f_and([f_or(raws), ev])] if raws and ev is not None else [])])
+                if goal == ("const", False) or not implies(F, goal):
+                    ok = False
+                    break
+    except AnalysisError:
+        ok = False
+    _cache[key] = ok
+    return ok
+
+
+class Ancestry:
+    """Is a value the name `h` itself or one of its ancestors (a leading run of its whole components)?
+
+    Ancestors are recognised by how they are made: `x.rpartition(".")[0]`, `x.rsplit(".", 1)[0]`, `x[:i]` with i the position of
+    a separator, `".".join(x.split(".")[:k])`, elements of get_parent_modules(x) (public API) or of any helper whose results are
+    made this way - for x the name or, again, one of its ancestors (loops that walk upwards)."""
+
+    def __init__(self, repo: Repo) -> None:
+        self.repo = repo
+        self.O = origins(repo)
+
+    def value(self, g: FuncInfo, e: ast.expr, h: str, depth: int = 0, seen: frozenset = frozenset()) -> bool:
+        key = (g.fq, id(e), "v", h)
+        if key in seen:
+            return True  # walking upwards: `parent = parent.rpartition(".")[0]`
+        if depth > 8:
+            return False
+        seen = seen | {key}
+        d = depth + 1
+        if norm(e) == h:
+            return True
+        if isinstance(e, ast.Constant):
+            return e.value is None or e.value == ""
+        if isinstance(e, ast.IfExp):
+            return self.value(g, e.body, h, d, seen) and self.value(g, e.orelse, h, d, seen)
+        if isinstance(e, ast.Subscript):
+            v = e.value
+            if not isinstance(e.slice, ast.Slice):
+                idx = e.slice.value if isinstance(e.slice, ast.Constant) else None
+                if isinstance(v, ast.Call) and isinstance(v.func, ast.Attribute) and v.args and _const_str(v.args[0]) == ".":
+                    a = v.func.attr
+                    if (a in ("rpartition", "partition") and idx == 0) or (a == "rsplit" and idx == 0) or (a == "split" and idx == 0):
+                        return self.value(g, v.func.value, h, d, seen)
+                return self.elements(g, v, h, d, seen)  # one element of a collection of ancestors
+            if e.slice.lower is None and e.slice.upper is not None and e.slice.step is None:
+                try:
+                    verdict, _why = _index_cut(self.repo, g, e, e.slice.upper, True)
+                except Exception:  # noqa: BLE001
+                    verdict = "unknown"
+                return verdict == "safe" and self.value(g, v, h, d, seen)
+            return False
+        if isinstance(e, ast.Call):
+            nm = _call_name(e)
+            if isinstance(e.func, ast.Attribute) and nm == "join" and _const_str(e.func.value) == "." and len(e.args) == 1:
+                arg = e.args[0]
+                while isinstance(arg, ast.Subscript) and isinstance(arg.slice, ast.Slice) and arg.slice.lower is None:
+                    arg = arg.value
+                if isinstance(arg, ast.Call) and _call_name(arg) == "islice" and arg.args:
+                    arg = arg.args[0]
+                for g2, x, kind in self.O.value(g, arg):
+                    while isinstance(x, ast.Subscript) and isinstance(x.slice, ast.Slice) and x.slice.lower is None:
+                        x = x.value
+                    if not (kind == "value" and g2 is g and isinstance(x, ast.Call) and _call_name(x) == "split" and isinstance(x.func, ast.Attribute) and x.args and _const_str(x.args[0]) == "." and self.value(g, x.func.value, h, d, seen)):
+                        return False
+                return True
+            if isinstance(e.func, ast.Name) and nm in ("next", "min", "max") and e.args:
+                ok = self.elements(g, e.args[0], h, d, seen)
+                return ok and all(self.value(g, a, h, d, seen) for a in e.args[1:]) and all(self.value(g, k.value, h, d, seen) for k in e.keywords if k.arg == "default")
+            if isinstance(e.func, ast.Name) and nm == "str" and len(e.args) == 1:
+                return self.value(g, e.args[0], h, d, seen)
+            return self._call(g, e, h, d, seen, elements=False)
+        if isinstance(e, ast.Name):
+            if isinstance(g.node, ast.Lambda) or e.id in g.param_names:
+                return False
+            binds = self.O._bindings(g, e.id, e)
+            if not binds:
+                return False
+            for kind, src, pos in binds:
+                if kind == "value" and not pos:
+                    if not self.value(g, src, h, d, seen):
+                        return False
+                elif kind == "value" and pos == (0,) and isinstance(src, ast.Call) and isinstance(src.func, ast.Attribute) and src.func.attr in ("rpartition", "partition") and src.args and _const_str(src.args[0]) == ".":
+                    if not self.value(g, src.func.value, h, d, seen):
+                        return False
+                elif kind == "elem" and not pos:
+                    if not self.elements(g, src, h, d, seen):
+                        return False
+                else:
+                    return False
+            return True
+        return False
+
+    def _call(self, g: FuncInfo, call: ast.Call, h: str, d: int, seen: frozenset, elements: bool) -> bool:
+        nm = _call_name(call)
+        if nm == "get_parent_modules" and call.args:
+            return elements and self.value(g, call.args[0], h, d, seen)  # public API: the ancestors of its argument
+        cs = self.O._callees(g, call)
+        if len(cs) != 1 or isinstance(cs[0].node, ast.Lambda):
+            return False
+        callee = cs[0]
+        pos_ = _positional(callee)
+        hp = None
+        for i, a in enumerate(call.args):
+            if i < len(pos_) and not isinstance(a, ast.Starred) and self.value(g, a, h, d, seen):
+                hp = pos_[i]
+                break
+        if hp is None:
+            for k in call.keywords:
+                if k.arg and self.value(g, k.value, h, d, seen):
+                    hp = k.arg
+        if hp is None:
+            return False
+        ys = [n for n in own_nodes(callee.node) if isinstance(n, (ast.Yield, ast.YieldFrom))]
+        if ys:
+            if not elements:
+                return False
+            return all((self.value(callee, y.value, hp, d, seen) if isinstance(y, ast.Yield) and y.value is not None else self.elements(callee, y.value, hp, d, seen) if isinstance(y, ast.YieldFrom) else False) for y in ys)
+        rets = [r.value for r in own_nodes(callee.node) if isinstance(r, ast.Return) and r.value is not None]
+        if not rets:
+            return False
+        return all((self.elements if elements else self.value)(callee, r, hp, d, seen) for r in rets)
+
+    def elements(self, g: FuncInfo, c: ast.expr, h: str, depth: int = 0, seen: frozenset = frozenset()) -> bool:
+        key = (g.fq, id(c), "e", h)
+        if key in seen:
+            return True
+        if depth > 8:
+            return False
+        seen = seen | {key}
+        d = depth + 1
+        if isinstance(c, ast.Starred):
+            return self.elements(g, c.value, h, d, seen)
+        if isinstance(c, (ast.List, ast.Tuple, ast.Set)):
+            return all(self.elements(g, x.value, h, d, seen) if isinstance(x, ast.Starred) else self.value(g, x, h, d, seen) for x in c.elts)
+        if isinstance(c, ast.BinOp) and isinstance(c.op, ast.Add):
+            return self.elements(g, c.left, h, d, seen) and self.elements(g, c.right, h, d, seen)
+        if isinstance(c, ast.Subscript) and isinstance(c.slice, ast.Slice):
+            return self.elements(g, c.value, h, d, seen)
+        if isinstance(c, (ast.ListComp, ast.SetComp, ast.GeneratorExp)):
+            return self.value(g, c.elt, h, d, seen)
+        if isinstance(c, ast.Call):
+            nm = _call_name(c)
+            if isinstance(c.func, ast.Name) and nm in (*WRAPPERS, "islice", "takewhile", "dropwhile") and c.args:
+                return self.elements(g, c.args[-1] if nm in ("takewhile", "dropwhile") else c.args[0], h, d, seen)
+            if isinstance(c.func, ast.Name) and nm == "filter" and len(c.args) == 2:
+                return self.elements(g, c.args[1], h, d, seen)
+            if isinstance(c.func, ast.Name) and nm == "chain":
+                return all(self.elements(g, a, h, d, seen) for a in c.args)
+            if isinstance(c.func, ast.Name) and nm == "accumulate" and len(c.args) == 2:
+                # accumulate(x.split(".")[..], lambda a, b: f"{a}.{b}"): the dotted prefixes of x
+                src, fn = c.args
+                while isinstance(src, ast.Subscript) and isinstance(src.slice, ast.Slice):
+                    src = src.value
+                src = _expand(self.repo, g, src)
+                while isinstance(src, ast.Subscript) and isinstance(src.slice, ast.Slice):
+                    src = src.value
+                joins = isinstance(fn, ast.Lambda) and len(fn.args.args) == 2 and norm(fn.body) in (f"f'{{{fn.args.args[0].arg}}}.{{{fn.args.args[1].arg}}}'", f"{fn.args.args[0].arg} + '.' + {fn.args.args[1].arg}") or norm(fn) in ("'{}.{}'.format",)
+                return bool(joins) and isinstance(src, ast.Call) and _call_name(src) == "split" and isinstance(src.func, ast.Attribute) and src.args and _const_str(src.args[0]) == "." and self.value(g, src.func.value, h, d, seen)
+            return self._call(g, c, h, d, seen, elements=True)
+        if isinstance(c, ast.Name):
+            if isinstance(g.node, ast.Lambda) or c.id in g.param_names:
+                return False
+            binds = self.O._bindings(g, c.id, c)
+            if not binds:
+                return False
+            for kind, src, pos in binds:
+                if kind != "value" or pos:
+                    return False
+                if (isinstance(src, (ast.List, ast.Set)) and not src.elts) or (isinstance(src, ast.Call) and _call_name(src) in ("list", "set", "deque") and not src.args):
+                    continue
+                if not self.elements(g, src, h, d, seen):
+                    return False
+            text = c.id
+            for n in own_nodes(g.node):
+                if isinstance(n, ast.Call) and isinstance(n.func, ast.Attribute) and isinstance(n.func.value, ast.Name) and n.func.value.id == text and n.args:
+                    a = n.func.attr
+                    if a in ("append", "add", "appendleft") and not self.value(g, n.args[0], h, d, seen):
+                        return False
+                    if a == "insert" and len(n.args) == 2 and not self.value(g, n.args[1], h, d, seen):
+                        return False
+                    if a in ("extend", "update", "extendleft") and not self.elements(g, n.args[0], h, d, seen):
+                        return False
+            return True
+        return False
+
+
+def _ancestor_or_self(repo: Repo, f: FuncInfo, e: ast.expr, hay: str, depth: int = 0) -> bool:
+    """`e` is `hay` itself or one of its ancestors (possibly None on other paths)."""
+    key = ("ancestry", id(repo))
+    if key not in _cache:
+        _cache[key] = Ancestry(repo)
+    try:
+        return _cache[key].value(f, e, hay)
+    except RecursionError:
+        raise
+    except Exception:  # noqa: BLE001
+        return False
+
+
 def _remainder_only_examined(repo: Repo, f: FuncInfo, n: ast.AST) -> bool:
     """The string left after cutting the prefix (`rest = name[len(p):]` / `name.removeprefix(p)`) is used for nothing but the test
     that it is empty or starts with the separator - then the cut itself decides nothing."""
@@ -2419,6 +2736,26 @@ def _slice_by_len(repo: Repo, f: FuncInfo, n: ast.AST, other_e: ast.expr, bounda
                 return "safe", "every caller establishes the boundary-safe prefix relation before the cut"
             if any(v == "unsafe" for v in verdicts):
                 return "unsafe", f"`{norm(n, 60)}` cuts a module name at the length of another string; a caller establishes only a raw prefix relation"
+    # the cut happens in a method of a small value class (`name.relative_to(other)`): every caller must have established the
+    # relation between the receiver's field and the argument (`if name.is_or_is_below(other): ... name.relative_to(other)`)
+    if depth < 2 and not isinstance(f.node, ast.Lambda) and f.cls is not None and isinstance(hay_e, ast.Attribute) and isinstance(hay_e.value, ast.Name) and hay_e.value.id == "self" and isinstance(other_e, ast.Name) and other_e.id in f.param_names:
+        oa = _callers_args(repo, f, other_e.id)
+        if oa:
+            verdicts = []
+            for g, o_expr in oa:
+                call = next((c for c in calls_in(g.node) if any(a is o_expr for a in [*c.args, *[k.value for k in c.keywords]])), None)
+                if call is None or isinstance(o_expr, ast.Starred) or not isinstance(call.func, ast.Attribute):
+                    verdicts.append("unknown")
+                    continue
+                h_caller = f"{norm(call.func.value)}.{hay_e.attr}"
+                try:
+                    facts_c, others_c = _site_facts(repo, g, call, norm(o_expr))
+                    safe_c, raw_c = _relation_atoms(repo, g, facts_c, h_caller, others_c)
+                    verdicts.append("safe" if safe_c and implies(facts_c, f_or(safe_c)) else "unknown")
+                except AnalysisError:
+                    verdicts.append("unknown")
+            if verdicts and all(v == "safe" for v in verdicts):
+                return "safe", "every caller establishes, by a relation predicate of the same object, that the argument is the name or one of its ancestors"
     return "unknown", f"`{norm(n, 60)}`: no test relating `{hay}` and `{other}` found on the paths to this slice"
 
 
